@@ -625,6 +625,14 @@ def corr_kraus(ctx, pend, cfg, g, eps):
         pend.add("hsOfKraus", hd + [r, cl(np.array(ks)), eps], lambda ks=ks: G.to_hs_from_kraus_matrices(c, ks), "r",
                  f"{cfg.name}/to_hs_from_kraus_matrices/nonTP{r}")
     pend.add("hsOfKraus", hd + [0, "-", eps], lambda: G.to_hs_from_kraus_matrices(c, []), "r", f"{cfg.name}/to_hs_from_kraus_matrices/empty")
+    # elements of different dtypes (real float64 / int64 next to complex128), both orders
+    oq, _ = np.linalg.qr(g.standard_normal((d, d)))
+    pm = np.eye(d, dtype=np.int64)[::-1].copy()
+    uu = qobj.rand_unitary(g, d)
+    for lab, ks in (("real-first", [np.sqrt(0.5) * oq, np.sqrt(0.5) * uu]), ("real-last", [np.sqrt(0.5) * uu, np.sqrt(0.5) * oq]),
+                    ("int-first", [pm, 0.5 * uu]), ("all-real", [np.sqrt(0.5) * oq, np.sqrt(0.5) * pm.astype(np.float64)])):
+        pend.add("hsOfKraus", hd + [len(ks), cl(np.array([np.asarray(k, dtype=np.complex128) for k in ks])), eps],
+                 lambda ks=ks: G.to_hs_from_kraus_matrices(c, ks), "r", f"{cfg.name}/to_hs_from_kraus_matrices/dtypes-{lab}")
     # not CP: HS of a positive-but-not-CP map (transpose mixed with identity) and a random real matrix
     Bt = [b.T for b in cfg.B]
     hs_t = np.array([[np.trace(ba.conj().T @ bt) for bt in Bt] for ba in cfg.B]).real
@@ -1459,7 +1467,65 @@ def chk_sequence(cfg, seed):
     sections(gate_seq, gate_zero_seq, mp_seq, state_povm_seq)
 
 
-CHECKS = {"compform": chk_compform, "layout": chk_layout, "reject": chk_reject, "sequence": chk_sequence, "state": chk_state, "density": chk_density, "povm": chk_povm, "gate": chk_gate, "choi": chk_choi, "kraus": chk_kraus,
+def chk_dtypes(cfg, seed):
+    """input dtypes: lists whose elements have DIFFERENT dtypes (real float64 / int64 operators next to complex ones, in every
+    order), integer-valued arrays of integer dtype; every conversion must give what it gives for the complex128 / float64 copy of
+    the same values, and the defining formula"""
+    c, d, n = cfg.c, cfg.d, cfg.n
+    g = np.random.default_rng(seed)
+    o, _ = np.linalg.qr(g.standard_normal((d, d)))                      # real orthogonal, dtype float64
+    perm = np.eye(d, dtype=np.int64)[list(g.permutation(d))]            # permutation matrix, dtype int64
+    u1, u2 = qobj.rand_unitary(g, d), qobj.rand_unitary(g, d)           # complex128
+    lists = {"real-first": [np.sqrt(0.5) * o, np.sqrt(0.3) * u1, np.sqrt(0.2) * u2],
+             "real-last": [np.sqrt(0.3) * u1, np.sqrt(0.2) * u2, np.sqrt(0.5) * o],
+             "int-first": [perm, 0.5 * u1],
+             "int-last": [0.5 * u1, perm],
+             "all-real": [np.sqrt(0.5) * o, np.sqrt(0.5) * perm.astype(np.float64)],
+             "all-int": [perm, np.eye(d, dtype=np.int64)]}
+
+    def kraus(lab, ks):
+        ref = hs_of_kraus_ref(cfg, [np.asarray(k, dtype=np.complex128) for k in ks])
+        r = call("C02/gate.to_hs_from_kraus_matrices", lambda: G.to_hs_from_kraus_matrices(c, ks))
+        need(dev(r, ref), f"C02/gate.to_hs_from_kraus_matrices/dtypes({lab})",
+             f"Kraus list with dtypes {[str(np.asarray(k).dtype) for k in ks]}: result != tr(B_a^† Σ K B_b K^†)")
+        r2 = call("C02/gate.to_hs_from_kraus_matrices", lambda: G.to_hs_from_kraus_matrices(c, [np.asarray(k, dtype=np.complex128) for k in ks]))
+        need(dev(r, r2), f"C02/gate.to_hs_from_kraus_matrices/dtypes({lab})/vs-complex-copy", "result depends on the dtypes of the list elements")
+
+    def others():
+        a, b = int(g.integers(0, n)), int(g.integers(0, n))
+        hs_i = np.zeros((n, n), dtype=np.int64); hs_i[a, b] = 1; hs_i[b, a] += 2
+        hs_f = hs_i.astype(np.float64)
+        for nm, fn in CHOI_FWD:
+            need(dev(call(f"C02/gate.to_choi_from_hs[{nm}]", lambda: fn(c, hs_i)), choi_ref(cfg, hs_f)), f"C02/gate.to_choi_from_hs[{nm}]/dtype(int64)", "integer HS matrix")
+        need(dev(call("C02/gate.to_process_matrix_from_hs", lambda: G.to_process_matrix_from_hs(c, hs_i)), choi_ref(cfg, hs_f)),
+             "C02/gate.to_process_matrix_from_hs/dtype(int64)", "integer HS matrix")
+        need(dev(call("C02/convert_hs", lambda: G.convert_hs(hs_i, c.basis(), c.comp_basis())), G.convert_hs(hs_f, c.basis(), c.comp_basis())),
+             "C02/convert_hs/dtype(int64)", "integer HS matrix")
+        v_i = np.zeros(n, dtype=np.int64); v_i[a] = 3; v_i[b] -= 1
+        ref = sum(float(x) * m for x, m in zip(v_i, cfg.B))
+        need(dev(call("C02/to_density_matrix_from_vec", lambda: S.to_density_matrix_from_vec(c, v_i)), ref), "C02/state.to_density_matrix_from_vec/dtype(int64)", "integer vec")
+        need(dev(call("C02/convert_vec", lambda: mb.convert_vec(v_i, c.basis(), c.comp_basis())), mb.convert_vec(v_i.astype(np.float64), c.basis(), c.comp_basis())),
+             "C02/convert_vec/dtype(int64)", "integer vec")
+        e = np.zeros((d, d), dtype=np.int64); e[0, 0] = 1; e[d - 1, d - 1] = 2
+        vref = np.array([np.trace(m.conj().T @ e) for m in cfg.B])
+        need(dev(call("C02/to_vec_from_density_matrix_with_sparsity", lambda: S.to_vec_from_density_matrix_with_sparsity(c, e)), vref),
+             "C02/state.to_vec_from_density_matrix_with_sparsity/dtype(int64)", "integer matrix")
+        rr = rand_herm(g, d)
+        mixed = [e, rr]                                               # list of matrices with different dtypes
+        pref = np.array([[np.trace(m.conj().T @ x) for m in cfg.B] for x in mixed])
+        need(dev(np.array(call("C02/to_vecs_from_matrices_with_sparsity", lambda: P.to_vecs_from_matrices_with_sparsity(c, mixed))), pref),
+             "C02/povm.to_vecs_from_matrices_with_sparsity/dtypes(int-first)", "mixed-dtype matrix list")
+        need(dev(call("C02/to_var_from_matrices", lambda: P.to_var_from_matrices(c, mixed, on_para_eq_constraint=False)), pref.flatten()),
+             "C02/povm.to_var_from_matrices/dtypes(int-first)", "mixed-dtype matrix list")
+        ch_f = choi_ref(cfg, hs_f)
+        for nm, fn in CHOI_INV:
+            need(dev(call(f"C02/gate.to_hs_from_choi[{nm}]", lambda: fn(c, ch_f.real.copy() if np.max(np.abs(ch_f.imag)) == 0 else ch_f)), hs_f),
+                 f"C02/gate.to_hs_from_choi[{nm}]/dtype(real-if-real)", "Choi matrix passed with its natural dtype")
+
+    sections(*([lambda lab=lab, ks=ks: kraus(lab, ks) for lab, ks in lists.items()] + [others]))
+
+
+CHECKS = {"dtypes": chk_dtypes, "compform": chk_compform, "layout": chk_layout, "reject": chk_reject, "sequence": chk_sequence, "state": chk_state, "density": chk_density, "povm": chk_povm, "gate": chk_gate, "choi": chk_choi, "kraus": chk_kraus,
           "notcp": chk_not_cp, "linear": chk_linear, "mprocess": chk_mprocess}
 
 
@@ -1606,6 +1672,8 @@ def oracle(ctx, volume=1):
             run_check(ctx, "reject", cfg, (seed,), {"check": "reject", "cfg": name, "seed": seed})
             ctx.case(("o-sequence", name, seed))
             run_check(ctx, "sequence", cfg, (seed,), {"check": "sequence", "cfg": name, "seed": seed})
+            ctx.case(("o-dtypes", name, seed))
+            run_check(ctx, "dtypes", cfg, (seed,), {"check": "dtypes", "cfg": name, "seed": seed})
 
 
 def search(ctx):
@@ -1622,7 +1690,7 @@ def replay(ctx, data):
             chk_povm_tensor([list(dec(f).real) for f in r["factors"]], tuple(r["names"]))
             print("property holds on this input now")
             return 0
-        if kind in ("layout", "reject", "sequence"):
+        if kind in ("layout", "reject", "sequence", "dtypes"):
             CHECKS[kind](cfg, r["seed"])
             print("property holds on this input now")
             return 0
